@@ -238,9 +238,55 @@ def shard_crosstalk(order):
     return acc
 
 
+ENV_FILES = {"MISC": ">x\nKKKKKKKKKK\n", "DATA": "KKKKKKKKKKKK\n", "README": "This is not a sequence file.\n", "WIDE": ">w\nEEEE\n", "make": "GG\n",
+             "seq.fasta": ">s\nMKVLA\n", "empty.txt": "", "AKE": ">a\nDDD\n", "ake": "WWW\n", "A K E": "CCC\n", "LICENSE": "text\n", "K": "E\n"}
+ENV_DIRS = ["TEST", "files", "SEQ", "G"]
+
+
+def shard_environment():
+    """The environment as a dimension: the same strings constructed while the working directory contains files and directories
+    whose NAMES are those strings (valid words such as MISC, DATA, README, K; non-words such as seq.fasta).  What the string
+    names on disk is irrelevant to the statement: a word is accepted as itself, a non-word is rejected."""
+    import os
+    import shutil
+    import tempfile
+    acc = core.Acc()
+    old = os.getcwd()
+    d = tempfile.mkdtemp(prefix="vmc_c13_env_")
+    try:
+        for name, text in ENV_FILES.items():
+            with open(os.path.join(d, name), "w") as f:
+                f.write(text)
+        for name in ENV_DIRS:
+            os.mkdir(os.path.join(d, name))
+        os.chdir(d)
+        strings = list(ENV_FILES) + ENV_DIRS + ["./seq.fasta", os.path.join(d, "seq.fasta"), os.path.join(d, "DATA"), "misc", "Misc", " MISC ",
+                                                "data", "D A T A", "readme", "TEST", "test", "files", ".", "..", d, "", "KEKE", "AKE\n"]
+        for s_ in strings:
+            case = {"kind": "string", "s": s_, "environment": True}
+            v, verdict, calls = check_case(case)
+            acc.states += 1
+            acc.traces += 1
+            acc.transitions += calls
+            acc.evaluations += 1
+            acc.out(verdict)
+            acc.bump("environment_" + verdict)
+            if verdict == "accepted":
+                acc.nontrivial += 1
+            for x in v:
+                acc.viol(x["key"] + "(file of that name in the working directory)", x["what"] + " [working directory holds files/directories named "
+                         "like the strings]", x["case"])
+    finally:
+        os.chdir(old)
+        shutil.rmtree(d, True)
+    return acc
+
+
 def shard(s):
     acc = core.Acc()
     kind = s[0]
+    if kind == "environment":
+        return shard_environment()
     if kind == "crosstalk":
         return shard_crosstalk(s[1])
     if kind == "words":
@@ -336,6 +382,7 @@ def run(tier, seed, t0):
     shards += [("insert", lo, min(top, lo + step)) for lo in range(0, top, step)]
     shards.append(("nonstring",))
     shards.append(("longs",))
+    shards.append(("environment",))
     shards += [("crosstalk", "files-first"), ("crosstalk", "strings-first"), ("crosstalk", "api-first")]
     shards = [s for s in shards if s[0] != "empty"]
     shards.sort(key=lambda s: -(s[1] if s[0] == "words" else 3))
@@ -344,7 +391,7 @@ def run(tier, seed, t0):
         PROP, tier, seed, acc, t0,
         rule="every string of length 0..%d over a 17-symbol alphabet (upper/lower residues, space, tab, newline, U+00A0, U+001C, "
              "B, 1, *, -, e-acute, NUL, dotless i, sharp s, >), every code point U+0000..U+%04X inserted at every position of 3 host "
-             "sequences, long strings (49..3000 characters; up to 500 separate whitespace stretches; 2100-character strings with one foreign character from outside Latin-1 at three positions) in valid, mixed and invalid forms (foreign +, -, 0, * at three positions, all blank), and %d non-string arguments (incl. objects whose str() is a valid word: nan, inf, Decimal, paths, exceptions, UserString); every rejected string is submitted three times and must stay rejected; oracle from the statement: with n = upper-cased input minus whitespace, "
+             "sequences, long strings (49..3000 characters; up to 500 separate whitespace stretches; 2100-character strings with one foreign character from outside Latin-1 at three positions) in valid, mixed and invalid forms (foreign +, -, 0, * at three positions, all blank), and %d non-string arguments (incl. objects whose str() is a valid word: nan, inf, Decimal, paths, exceptions, UserString); every rejected string is submitted three times and must stay rejected; 40 strings constructed while the working directory holds files and directories named like them (words such as MISC, DATA, K and non-words such as seq.fasta); oracle from the statement: with n = upper-cased input minus whitespace, "
              "construction succeeds iff n is a non-empty word over the 20 letters, then sequence/length/len equal n and a 32-entry "
              "read-only API vector equals that of SequenceParameters(n) (also when the same mixed-case residues are handed over as a backend "
              "Sequence / SequencePermutants); otherwise an exception; in a freshly imported package six sequence files are parsed before "
@@ -358,4 +405,6 @@ def run(tier, seed, t0):
 def replay(case):
     if case.get("kind") == "crosstalk":
         return shard_crosstalk(case["order"]).violations
+    if case.get("environment"):
+        return [x for x in shard_environment().violations if x["case"].get("s") == case.get("s")]
     return check_case(case)[0]
